@@ -43,7 +43,7 @@ def _gen_case(rng):
             'generate_at': rng.choice([None, 1, 2, 2]), 'divide_at': rng.choice([None, None, 2, 3]),
             'ticks': rng.choice([4, 5]), 'x0': rng.choice([0, 2, 7]), 'slow': rng.choice([None, None, 2, 3]),
             'director': rng.choice(['process', 'process', 'deriver']), 'twin': rng.random() < 0.5,
-            'splitter_at': rng.choice([None, None, None, 2, 3])}
+            'splitter_at': rng.choice([None, None, None, 2, 3]), 'inner': rng.random() < 0.5}
 
 
 def corpus():
@@ -74,6 +74,9 @@ def corpus():
         # a flow step of the mother divides her (inheriting daughters) while a step of the same layer is running
         {'kind': 'dynflow', 'entry': 'parts', 'initial': ['a', 'z'], 'generate_at': None, 'divide_at': None,
          'ticks': 4, 'x0': 1, 'splitter_at': 2},
+        # steps nested one level further down (also in the generated compartment), depending on a step further up
+        {'kind': 'dynflow', 'entry': 'parts', 'initial': ['a'], 'generate_at': 2, 'divide_at': None, 'ticks': 4,
+         'x0': 3, 'inner': True},
         # two compartments generated by one update
         {'kind': 'dynflow', 'entry': 'parts', 'initial': ['a'], 'generate_at': 1, 'divide_at': None, 'ticks': 4,
          'x0': 0, 'twin': True},
@@ -109,7 +112,8 @@ def _classes():
         defaults = {'key': None, 'role': 'start'}
 
         def ports_schema(self):
-            sch = {v: {'_default': 0, '_emit': True, '_updater': 'set', '_divider': 'set'} for v in 'abct'}
+            sch = {v: {'_default': 0, '_emit': True, '_updater': 'set', '_divider': 'set'}
+                   for v in ('a', 'b', 'c', 't', 'i1', 'i2')}
             sch['x'] = {'_default': 0, '_emit': True, '_divider': 'set'}
             sch['name'] = {'_default': '', '_updater': 'set', '_divider': 'set'}
             return {'vars': sch}
@@ -122,6 +126,10 @@ def _classes():
                 ctx['log'].append({'e': 'step', 'role': role, 't': ctx['now'](), 'phase': ctx['phase'](), 'x': v['x']})
             if role == 'tally':
                 return {'vars': {'t': v['x'] * 2}}
+            if role == 'i1':
+                return {'vars': {'i1': v['c'] * 2}}
+            if role == 'i2':
+                return {'vars': {'i2': v['i1'] + 1}}
             if role == 'start':
                 return {'vars': {'a': v['x'] + 1}}
             if role == 'middle':
@@ -195,13 +203,13 @@ def _classes():
 def generated(key, case):
     """the `_generate` directive of the scenario: compartment `g`, and with `twin` a second one, `h`, in the same
     update (every entry of the list must reach the engine)"""
-    out = [dict(compartment(key, case['x0'] + 100), key='g')]
+    out = [dict(compartment(key, case['x0'] + 100, inner=case.get('inner', False)), key='g')]
     if case.get('twin'):
-        out.append(dict(compartment(key, case['x0'] + 200), key='h'))
+        out.append(dict(compartment(key, case['x0'] + 200, inner=case.get('inner', False)), key='h'))
     return out
 
 
-def compartment(key, x0, slow=None, splitter_at=None, me='a'):
+def compartment(key, x0, slow=None, splitter_at=None, me='a', inner=False):
     Grow, Chain, _, Slow, _, Splitter = _classes()
     procs = {'grow': Grow({'key': key})}
     if slow:
@@ -211,6 +219,11 @@ def compartment(key, x0, slow=None, splitter_at=None, me='a'):
             'flow': {r: list(FLOW[r]) for r in ROLES},
             'topology': dict({p: {'vars': ('vars',)} for p in procs}, **{r: {'vars': ('vars',)} for r in ALL_ROLES}),
             'initial_state': {'vars': {'x': x0}}}
+    if inner:
+        # a sub-dictionary of steps, declared in reverse: i2 waits for i1, i1 for `finish` one level up
+        comp['steps']['inner'] = {'i2': Chain({'key': key, 'role': 'i2'}), 'i1': Chain({'key': key, 'role': 'i1'})}
+        comp['flow']['inner'] = {'i2': [('i1',)], 'i1': [('..', 'finish')]}
+        comp['topology']['inner'] = {'i2': {'vars': ('..', 'vars')}, 'i1': {'vars': ('..', 'vars')}}
     if splitter_at is not None:
         comp['steps']['splitter'] = Splitter({'key': key, 'at': splitter_at, 'me': me})
         comp['flow']['splitter'] = []
@@ -277,7 +290,7 @@ def run_impl(case):
         init = {'agents': {}}
         for i, k in enumerate(case['initial']):
             comp = compartment(key, case['x0'] + 10 * i, case.get('slow'),
-                               case.get('splitter_at') if k == 'a' else None, k)
+                               case.get('splitter_at') if k == 'a' else None, k, case.get('inner', False))
             for part in ('processes', 'steps', 'flow', 'topology'):
                 parts[part]['agents'][k] = comp[part]
             init['agents'][k] = comp['initial_state']
@@ -390,6 +403,12 @@ def oracle(case, impl, who=('order', 'values', 'once', 'published', 'alive')):
                     fails.append(f'sees-deps: at t={row["t"]} compartment {k} holds x={v["x"]} a={v["a"]} b={v["b"]} '
                                  f'c={v["c"]}: a step ran before the update of its dependency was applied '
                                  f'(a = x + 1, b = 10 a, c = b + 5 must hold after every phase)')
+                    break
+                if case.get('inner') and case['entry'] in ('parts', 'composite', 'store') \
+                        and (v.get('i1') != 2 * v['c'] or v.get('i2') != 2 * v['c'] + 1):
+                    fails.append(f'sees-deps: at t={row["t"]} compartment {k} holds c={v["c"]} i1={v.get("i1")} '
+                                 f'i2={v.get("i2")}: the nested steps (i1 = 2 c after `finish` one level up, '
+                                 f'i2 = i1 + 1) did not run in dependency order')
                     break
                 if v['t'] != 2 * v['x']:
                     fails.append(f'deriver-skipped: at t={row["t"]} compartment {k} holds x={v["x"]} t={v["t"]}: its '
